@@ -819,4 +819,270 @@ theorem refines_poll {w : World} {st : S} (h : R w st) : Refines w st .poll := b
   rw [run_one]
   exact step_polled (no_completable hR _ (fun r hr => List.mem_range.1 hr) hd)
 
+/-- Queueing a datagram to the sockets it arrived at, on both sides. -/
+theorem R.enq {w : World} {st : S} (h : R w st) (arrived : List Nat) (d : Dgram)
+    (harr : ∀ r ∈ arrived, ∀ m, w.socks r = some m → m.closed = false) :
+    R { w with socks := Model.Datagram.enqueue w.socks arrived d } { st with socks := deliver st.socks arrived d } := by
+  refine ⟨h.host, fun i => ?_, h.notes⟩
+  have hi := h.socks i
+  simp only [Model.Datagram.enqueue, deliver]
+  cases hw : w.socks i with
+  | none => cases hs : st.socks i with
+    | none => simp [OptR]
+    | some t => rw [hw, hs] at hi; simp [OptR] at hi
+  | some m => cases hs : st.socks i with
+    | none => rw [hw, hs] at hi; simp [OptR] at hi
+    | some t =>
+      rw [hw, hs] at hi
+      have hr : SockR w.nbuf m t := hi
+      simp only [Option.map, OptR]
+      by_cases hc : arrived.contains i = true
+      · simp only [hc, if_true]
+        have hcl := harr i (by simpa using hc) m hw
+        refine ⟨hr.kern, hr.isOpen, ?_, hr.pend, hr.closedRead, hr.memb, hr.getters, hr.cands, hr.candsLt, hr.candsInc, hr.readLen⟩
+        simp [hr.out, hcl]
+      · simp only [hc, Bool.false_eq_true, if_false]
+        exact hr
+
+theorem mem_filter_range {p : Nat → Bool} {r : Nat} : ((List.range maxSock).filter p).contains r = (decide (r < maxSock) && p r) := by
+  rw [Bool.eq_iff_iff]
+  simp [List.mem_filter, List.mem_range]
+
+
+/-- The model's loop-back delivery decision agrees with the monitor's verdict for every socket. -/
+theorem verdict_none {w : World} {st : S} (h : R w st) (via : Bool) (dst src : Addr) (r : Nat) (hr : r < maxSock) :
+    mcastVerdict st via dst src ((List.range maxSock).filter (kDeliver w via dst src.ip)) r = none := by
+  unfold mcastVerdict
+  rw [mem_filter_range]
+  have hopt := h.socks r
+  cases hs : st.socks r with
+  | none =>
+    cases hw : w.socks r with
+    | none => simp [kDeliver, hw]
+    | some m => rw [hs, hw] at hopt; simp [OptR] at hopt
+  | some t =>
+    cases hw : w.socks r with
+    | none => rw [hs, hw] at hopt; simp [OptR] at hopt
+    | some m =>
+      rw [hs, hw] at hopt
+      have hsr : SockR _ m t := hopt
+      simp only [hr, decide_true, Bool.true_and]
+      by_cases hk : kDeliver w via dst src.ip r = true
+      · have hk' := hk
+        simp only [kDeliver, hw, Bool.and_eq_true, Bool.not_eq_true', Bool.or_eq_true] at hk'
+        obtain ⟨⟨⟨⟨hcl, hvia⟩, hport⟩, hip⟩, hallow⟩ := hk'
+        have hj : joinedFor t dst src.ip = true := by
+          simp only [joinedFor, hsr.isOpen, hcl, hsr.kern, Bool.not_false, Bool.true_and, Bool.and_eq_true, Bool.or_eq_true]
+          exact ⟨⟨hport, hip⟩, kAllow_sound hsr.memb _ _ hallow⟩
+        simp [hk, hj]
+      · have hk0 : kDeliver w via dst src.ip r = false := by simpa using hk
+        simp only [hk0, Bool.false_and, Bool.false_eq_true, if_false, Bool.not_false, Bool.true_and]
+        by_cases hc : (joinedFor t dst src.ip && via && settled t dst.ip) = true
+        · exfalso
+          simp only [Bool.and_eq_true] at hc
+          obtain ⟨⟨hj, hvia⟩, hset⟩ := hc
+          simp only [joinedFor, Bool.and_eq_true, Bool.or_eq_true] at hj
+          obtain ⟨⟨⟨hopen, hport⟩, hip⟩, hpass⟩ := hj
+          have hcl : m.closed = false := by
+            have := hsr.isOpen; rw [hopen] at this; simpa using this.symm
+          have hset' : t.memb.unsure dst.ip = false := by simpa [settled] using hset
+          have hallow : kAllow m.membs dst.ip src.ip = true := by rw [kAllow_complete hsr.memb _ _ hset']; exact hpass
+          apply hk
+          simp only [kDeliver, hw, hcl, hvia, Bool.not_false, Bool.true_and, Bool.and_eq_true, Bool.or_eq_true]
+          rw [← hsr.kern]
+          exact ⟨⟨hport, hip⟩, hallow⟩
+        · simp only [hc, Bool.false_eq_true, if_false]
+
+theorem accept_sent_mcast {w : World} {st : S} (h : R w st) {s : Nat} {tx : MSock} (hl : live w s = some tx)
+    (dst src : Addr) (data : List UInt8) (hm : isMulticast dst.ip = true) :
+    Sonic.Spec.Datagram.step st (.sent s dst data .nil data.length src (mcArrived w tx dst src.ip))
+      = .ok { st with socks := deliver st.socks (mcArrived w tx dst src.ip) { src := src, dst := dst, data := data } } := by
+  obtain ⟨hs, hw, hcl, t, ht, hr⟩ := h.ofLive hl
+  have hnone : (List.range maxSock).findSome? (mcastVerdict st (viaMcastIf st.host t.kern.name.ip t.kern.mcIf && t.kern.loop) dst src
+      (mcArrived w tx dst src.ip)) = none := by
+    rw [List.findSome?_eq_none_iff]
+    intro r hrm
+    rw [h.host, hr.kern]
+    exact verdict_none h _ dst src r (List.mem_range.1 hrm)
+  simp only [Sonic.Spec.Datagram.step, ht, errc_nil_bne, Bool.false_eq_true, if_false, bne_self_eq_false, hm, if_true, hnone]
+
+
+theorem pick_mem {l : List Nat} {r : Nat} {rs : List Nat} (hl : l = r :: rs) (pick : Nat) :
+    ∃ x, (if (r :: rs).contains pick then [pick] else [r]) = [x] ∧ x ∈ l := by
+  by_cases hc : (r :: rs).contains pick = true
+  · exact ⟨pick, by rw [if_pos hc], by rw [hl]; simpa using hc⟩
+  · exact ⟨r, by rw [if_neg hc], by rw [hl]; simp⟩
+
+theorem ucArrived_cases (w : World) (dst : Addr) (pick : Nat) :
+    (ucArrived w dst pick = [] ∧ ∀ r, r < maxSock → ucastCand w dst true r = false ∧ ucastCand w dst false r = false)
+    ∨ ∃ x, ucArrived w dst pick = [x] ∧ x < maxSock ∧ (ucastCand w dst true x = true ∨ ucastCand w dst false x = true) := by
+  unfold ucArrived
+  cases hA : (List.range maxSock).filter (ucastCand w dst true) with
+  | cons r rs =>
+    right
+    obtain ⟨x, hx, hmem⟩ := pick_mem hA pick
+    rw [List.mem_filter, List.mem_range] at hmem
+    exact ⟨x, hx, hmem.1, Or.inl hmem.2⟩
+  | nil =>
+    cases hB : (List.range maxSock).filter (ucastCand w dst false) with
+    | cons r rs =>
+      right
+      obtain ⟨x, hx, hmem⟩ := pick_mem hB pick
+      rw [List.mem_filter, List.mem_range] at hmem
+      exact ⟨x, hx, hmem.1, Or.inr hmem.2⟩
+    | nil =>
+      left
+      refine ⟨rfl, fun r hr => ?_⟩
+      rw [List.filter_eq_nil_iff] at hA hB
+      have ha := hA r (List.mem_range.2 hr)
+      have hb := hB r (List.mem_range.2 hr)
+      exact ⟨by simpa using ha, by simpa using hb⟩
+
+theorem accept_sent_ucast {w : World} {st : S} (h : R w st) {s : Nat} {tx : MSock} (hl : live w s = some tx)
+    (dst src : Addr) (data : List UInt8) (pick : Nat) (hm : isMulticast dst.ip = false) :
+    Sonic.Spec.Datagram.step st (.sent s dst data .nil data.length src (ucArrived w dst pick))
+      = .ok { st with socks := deliver st.socks (ucArrived w dst pick) { src := src, dst := dst, data := data } }
+    ∧ ∀ r ∈ ucArrived w dst pick, ∀ m, w.socks r = some m → m.closed = false := by
+  obtain ⟨hs, hw, hcl, t, ht, hr⟩ := h.ofLive hl
+  rcases ucArrived_cases w dst pick with ⟨hnil, hno⟩ | ⟨x, hx, hxlt, hcand⟩
+  · rw [hnil]
+    refine ⟨?_, fun r hr => by simp at hr⟩
+    have hany : ((List.range maxSock).any fun r => match st.socks r with | some rs => ucastMatch rs dst | none => false) = false := by
+      rw [List.any_eq_false]
+      intro r hrm
+      have hrlt := List.mem_range.1 hrm
+      have hopt := h.socks r
+      cases hsr : st.socks r with
+      | none => simp
+      | some t' =>
+        cases hwr : w.socks r with
+        | none => rw [hsr, hwr] at hopt; simp [OptR] at hopt
+        | some m' =>
+          rw [hsr, hwr] at hopt
+          have hsr' : SockR _ m' t' := hopt
+          obtain ⟨h1, h2⟩ := hno r hrlt
+          simp only [ucastCand, hwr, if_true, Bool.false_eq_true, if_false] at h1 h2
+          simp only [ucastMatch, hsr'.isOpen, hsr'.kern]
+          cases hc : m'.closed <;> simp_all
+    have : deliver st.socks [] { src := src, dst := dst, data := data } = st.socks := by
+      funext r; simp [deliver]
+    rw [this]
+    simp only [Sonic.Spec.Datagram.step, ht, errc_nil_bne, Bool.false_eq_true, if_false, bne_self_eq_false, hm]
+    show (if _ = true then _ else _) = _
+    rw [if_neg]
+    intro hc
+    exact Bool.noConfusion (hc.symm.trans hany)
+  · rw [hx]
+    have hwx : ∃ m', w.socks x = some m' ∧ m'.closed = false ∧ m'.kern.name.port = dst.port ∧ (m'.kern.name.ip = dst.ip ∨ m'.kern.name.ip = 0) := by
+      rcases hcand with hc | hc
+      · unfold ucastCand at hc
+        cases hwx : w.socks x with
+        | none => simp [hwx] at hc
+        | some m' => simp [hwx] at hc; exact ⟨m', rfl, hc.1.1, hc.1.2, Or.inl hc.2⟩
+      · unfold ucastCand at hc
+        cases hwx : w.socks x with
+        | none => simp [hwx] at hc
+        | some m' => simp [hwx] at hc; exact ⟨m', rfl, hc.1.1, hc.1.2, Or.inr hc.2⟩
+    obtain ⟨m', hwx, hclx, hport, hip⟩ := hwx
+    have hopt := h.socks x
+    rw [hwx] at hopt
+    cases hsx : st.socks x with
+    | none => rw [hsx] at hopt; simp [OptR] at hopt
+    | some t' =>
+      rw [hsx] at hopt
+      have hsr' : SockR _ m' t' := hopt
+      have hmatch : ucastMatch t' dst = true := by
+        simp only [ucastMatch, hsr'.isOpen, hsr'.kern, hclx, Bool.not_false, Bool.true_and, Bool.and_eq_true, Bool.or_eq_true, beq_iff_eq]
+        exact ⟨hport, hip⟩
+      refine ⟨?_, ?_⟩
+      · simp only [Sonic.Spec.Datagram.step, ht, errc_nil_bne, Bool.false_eq_true, if_false, bne_self_eq_false, hm, hsx, hmatch, if_true]
+      · intro r hr m2 hm2
+        simp only [List.mem_singleton] at hr
+        subst hr
+        rw [hwx] at hm2; cases hm2; exact hclx
+
+
+theorem mcArrived_open {w : World} {tx : MSock} {dst : Addr} {srcIp : Ip} :
+    ∀ r ∈ mcArrived w tx dst srcIp, ∀ m, w.socks r = some m → m.closed = false := by
+  intro r hr m hm
+  unfold mcArrived at hr
+  rw [List.mem_filter] at hr
+  have := hr.2
+  simp only [kDeliver, hm, Bool.and_eq_true, Bool.not_eq_true'] at this
+  exact this.1.1.1.1
+
+theorem accept_sendTo {w : World} {st : S} (h : R w st) {s : Nat} {tx : MSock} (hl : live w s = some tx)
+    (dsta : Addr) (data : List UInt8) (pick : Nat) :
+    ∃ st', Sonic.Spec.Datagram.run st (sendTo w s tx dsta data pick).2 = .ok st' ∧ R (sendTo w s tx dsta data pick).1 st' := by
+  obtain ⟨hs, hw, hcl, t, ht, hr⟩ := h.ofLive hl
+  unfold sendTo
+  dsimp only
+  by_cases herr : sendErr tx.kern dsta data = .nil
+  · simp only [herr, bne_self_eq_false, Bool.false_eq_true, if_false]
+    by_cases hm : isMulticast dsta.ip = true
+    · simp only [hm, if_true]
+      refine ⟨_, by rw [run_one]; exact accept_sent_mcast h hl dsta _ data hm, ?_⟩
+      exact h.enq _ _ mcArrived_open
+    · have hm' : isMulticast dsta.ip = false := by simpa using hm
+      simp only [hm', Bool.false_eq_true, if_false]
+      obtain ⟨hstep, hopen⟩ := accept_sent_ucast h hl dsta { ip := srcIp w.host tx.kern dsta, port := tx.kern.name.port } data pick hm'
+      exact ⟨_, by rw [run_one]; exact hstep, h.enq _ _ hopen⟩
+  · have hne : (sendErr tx.kern dsta data != Errc.nil) = true := by simpa using herr
+    simp only [hne, if_true]
+    refine ⟨st, ?_, h⟩
+    rw [run_one]
+    simp [Sonic.Spec.Datagram.step, ht, hne]
+
+theorem refines_send {w : World} {st : S} (h : R w st) (s : Nat) (dst : Dst) (data : List UInt8) (pick : Nat) :
+    Refines w st (.send s dst data pick) := by
+  unfold Refines
+  simp only [Model.Datagram.step]
+  cases hl : live w s with
+  | none => exact accept_skipped h
+  | some tx =>
+    dsimp only
+    by_cases hb : tx.broken = true
+    · simp only [hb, if_true]; exact accept_skipped h
+    · simp only [hb, Bool.false_eq_true, if_false]
+      split
+      · exact accept_skipped h
+      · exact accept_sendTo h hl _ data pick
+
+
+/-! ### Every operation -/
+
+theorem step_refines {w : World} {st : S} (h : R w st) (op : Op) (hok : OpOk op = true) : Refines w st op := by
+  cases op with
+  | newPc s f => exact refines_newPc h s f
+  | newPeer s ip sh => exact refines_newPeer h s ip sh
+  | newRaw s f => exact refines_newRaw h s f
+  | get s => exact refines_get h s
+  | setLoop s v => exact refines_setLoop h s v
+  | setTTL s v => exact refines_setTTL h s v
+  | setOut s i => exact refines_setOut h s i
+  | join s g on src => exact refinesOp_join h s g on src
+  | leave s g src => exact refines_leaveOp h s g src
+  | block s g src => exact refines_blockOp h s g src
+  | unblock s g src => exact refines_unblockOp h s g src
+  | brk s => exact refines_brk h s
+  | mend s => exact refines_mend h s
+  | send s dst data pick => exact refines_send h s dst data pick
+  | read s len => exact refines_read h s len (by simpa [OpOk] using hok)
+  | setBuf s len => exact refines_setBuf h s len (by simpa [OpOk] using hok)
+  | poll => exact refines_poll h
+  | close s => exact refines_close h s
+
+/-- For every script the monitor accepts the model's trace, and the coupling holds in the final state. -/
+theorem run_refines {w : World} {st : S} (h : R w st) (ops : List Op) (hok : ∀ op ∈ ops, OpOk op = true) :
+    ∃ st', Sonic.Spec.Datagram.run st (Model.Datagram.run w ops) = .ok st' ∧ R (runW w ops) st' := by
+  induction ops generalizing w st with
+  | nil => exact ⟨st, rfl, h⟩
+  | cons op r ih =>
+    obtain ⟨st1, hrun1, hR1⟩ := step_refines h op (hok op (by simp))
+    obtain ⟨st2, hrun2, hR2⟩ := ih hR1 (fun o ho => hok o (by simp [ho]))
+    refine ⟨st2, ?_, hR2⟩
+    simp only [Model.Datagram.run]
+    rw [run_append, hrun1]
+    exact hrun2
+
 end Sonic.Lemmas.Datagram
